@@ -74,3 +74,15 @@ def corpus_for(prop: str):
         c["ranks"] = {int(k): v for k, v in c["ranks"].items()}
         out.append(c)
     return out
+
+
+def first_is_host_op(case) -> bool:
+    """The first event of every file is a host operator without a correlation id."""
+    for ev in case["ranks"].values():
+        if not ev:
+            return False
+        e = ev[0]
+        a = e.get("args") or {}
+        if e.get("ph") != "X" or "dur" not in e or "stream" in a or a.get("correlation", -1) != -1 or e.get("cat") == "Trace":
+            return False
+    return True
